@@ -16,12 +16,19 @@ func (server *RunningJob) AwaitStop() {
 func SpawnJob(start func(), shutdown func()) RunningJob {
 	stop := make(chan struct{})
 	closed := make(chan struct{})
+	startDone := make(chan struct{})
 	go func() {
 		<-stop
 		shutdown()
+		// start may still hold resources (e.g. a bound listener that shutdown
+		// did not see yet), so the job is closed only once it has returned
+		<-startDone
 		close(closed)
 	}()
-	go start()
+	go func() {
+		defer close(startDone)
+		start()
+	}()
 	return RunningJob{stop: stop, closed: closed}
 }
 
